@@ -498,6 +498,14 @@ func trySendObject(ctx context.Context, object string, objectsFound *atomic.Uint
 		if objectsFound.Add(1) > maxResults {
 			return
 		}
+		// The object has been counted towards the limit, so it has to be delivered: once the count
+		// reaches the limit the consumer cancels ctx, and a send that selects on ctx.Done() could then
+		// drop an object that was already counted, leaving the response shorter than the limit.
+		select {
+		case resultsChan <- ListObjectsResult{ObjectID: object}:
+			return
+		default:
+		}
 	}
 	concurrency.TrySendThroughChannel(ctx, ListObjectsResult{ObjectID: object}, resultsChan)
 }
